@@ -54,11 +54,10 @@ func sameValue(a, b val.Value) bool { return val.Same(a, b) }
 // runDiff executes the session in one mode.
 func runDiff(stmts []ast.Node, o diffOpts) (out diffOutcome) {
 	ref := rs.New()
+	// the VM binds its input reader when it is created
+	calcrun.SetStdin(o.Stdin)
+	ref.SetStdin(o.Stdin)
 	ses := calcrun.NewSession()
-	if o.Stdin != "" {
-		ref.SetStdin(o.Stdin)
-		calcrun.SetStdin(o.Stdin)
-	}
 	memory.VerifTight = o.Stress == "tight"
 	defer func() { memory.VerifTight = false }()
 	if o.Stress == "pregrown" {
